@@ -25,7 +25,9 @@ type FuncCFG struct {
 	// the helpers that were expanded into this graph
 	expandedHead map[*cfg.Block]bool
 	Expanded     []string
-	regionOf     map[*cfg.Block]*region // nil entry = the analysed function itself
+	regionOf     map[*cfg.Block]*region  // nil entry = the analysed function itself
+	rescan       map[*cfg.Block]bool     // spliced blocks: only calls of bound function values are expanded
+	litOnStack   map[*ast.BlockStmt]bool // literal bodies being spliced (recursion guard)
 	// CallsOpaque: Resolve/KeyAt do not look into spliced helpers for the value a call returns (the
 	// call itself is the value); parameters of spliced helpers are still mapped to their arguments
 	CallsOpaque bool
@@ -1199,20 +1201,39 @@ func (f *FuncCFG) expand(depth int, onStack map[*types.Func]bool) {
 			if call == nil {
 				continue
 			}
+			var fd *ast.FuncDecl
 			fn := staticCallee(f.Info, call)
-			if fn == nil {
-				continue
+			if fn != nil {
+				if f.rescan[b] {
+					continue // decided at the level this block was spliced from
+				}
+				fn = fn.Origin()
+				fd = di.byFunc[fn]
+				if fd == nil || fd.Name.IsExported() || onStack[fn] || di.infoOf[fd] != f.Info {
+					continue
+				}
+				if fd.Body == f.Body || stmtCount(fd.Body) > expandMaxStmts {
+					continue // direct recursion, or not a small helper
+				}
+			} else {
+				// a call of a function VALUE that is known to be one function literal: a local closure
+				// defined once, or a parameter of a spliced helper that was handed a literal
+				// (`forEach(func(k, v) {...})` with `visit(k, v)` inside forEach). Splicing the
+				// literal's body at the call is exact inlining.
+				ft, body := f.boundLiteral(call.Fun, Point{b, i})
+				if body == nil || f.litOnStack[body] || body == f.Body || stmtCount(body) > expandMaxStmts {
+					continue
+				}
+				fd = &ast.FuncDecl{Name: ast.NewIdent("func"), Type: ft, Body: body}
 			}
-			fn = fn.Origin()
-			fd := di.byFunc[fn]
-			if fd == nil || fd.Name.IsExported() || onStack[fn] || di.infoOf[fd] != f.Info {
-				continue
+			sub := &FuncCFG{P: f.P, Info: f.Info, Body: fd.Body, G: cfg.New(fd.Body, mayReturn(f.Info)), Name: f.Name, expandedHead: map[*cfg.Block]bool{}, litOnStack: map[*ast.BlockStmt]bool{fd.Body: true}}
+			for k := range f.litOnStack {
+				sub.litOnStack[k] = true
 			}
-			if fd.Body == f.Body || stmtCount(fd.Body) > expandMaxStmts {
-				continue // direct recursion, or not a small helper
+			st := map[*types.Func]bool{}
+			if fn != nil {
+				st[fn] = true
 			}
-			sub := &FuncCFG{P: f.P, Info: f.Info, Body: fd.Body, G: cfg.New(fd.Body, mayReturn(f.Info)), Name: f.Name, expandedHead: map[*cfg.Block]bool{}}
-			st := map[*types.Func]bool{fn: true}
 			for k := range onStack {
 				st[k] = true
 			}
@@ -1514,8 +1535,23 @@ func (f *FuncCFG) expand(depth int, onStack map[*types.Func]bool) {
 				tail.Live = false
 			}
 			f.G.Blocks = append(f.G.Blocks, tail)
-			f.Expanded = append(f.Expanded, funcKeyOf(fn))
+			if fn != nil {
+				f.Expanded = append(f.Expanded, funcKeyOf(fn))
+			} else {
+				f.Expanded = append(f.Expanded, "func literal at "+f.P.posStr(fd.Body.Pos()))
+			}
 			work = append(work, tail)
+			// the spliced blocks are scanned once more in this frame: a call of one of the helper's
+			// function-typed parameters can be bound to a literal only now that the call is known
+			if f.rescan == nil {
+				f.rescan = map[*cfg.Block]bool{}
+			}
+			for _, cb := range sub.G.Blocks {
+				if cb.Live {
+					f.rescan[cb] = true
+					work = append(work, cb)
+				}
+			}
 			break
 		}
 	}
@@ -2374,4 +2410,37 @@ func (f *FuncCFG) regionChain(b *cfg.Block) []string {
 		out = append(out, reg.fd.Name.Name)
 	}
 	return out
+}
+
+// boundLiteral: the function literal a called function VALUE is known to be - e is an identifier of
+// a variable with exactly one definition (a literal), or of a parameter of a spliced helper whose
+// argument is such a variable or a literal (followed through up to four hops).
+func (f *FuncCFG) boundLiteral(e ast.Expr, pt Point) (*ast.FuncType, *ast.BlockStmt) {
+	cur := e
+	for hops := 0; hops < 5; hops++ {
+		switch x := ast.Unparen(cur).(type) {
+		case *ast.FuncLit:
+			return x.Type, x.Body
+		case *ast.Ident:
+			o, _ := f.Info.Uses[x].(*types.Var)
+			if o == nil {
+				return nil, nil
+			}
+			if _, isFn := o.Type().Underlying().(*types.Signature); !isFn {
+				return nil, nil
+			}
+			if arg, apt, ok := f.paramArg(o, pt); ok {
+				cur, pt = arg, apt
+				continue
+			}
+			if rhs, ok := singleDef[o]; ok {
+				cur = rhs
+				continue
+			}
+			return nil, nil
+		default:
+			return nil, nil
+		}
+	}
+	return nil, nil
 }
